@@ -142,6 +142,16 @@ theorem C02_precalc (d ax : ℕ) (F : PreFormulas) (hF : preFormulas d ax = some
     Cf.a j = L.a j ∧ Cf.b j + 1 / dt = L.b j ∧ Cf.c j = L.c j :=
   preCoef_eq_line F (preFormulas_ok d ax F hF) xs hN V M delj nu dt z o j hj
 
+/-- …hence one pre-computed step (Thomas solve of the rows `(a, b + 1/dt, c, φ/dt)` that `implicit_precalc_*` / the 1-D driver hand
+    to the solver) returns exactly the on-the-fly step, for every density -/
+theorem C02_precalc_step (d ax : ℕ) (F : PreFormulas) (hF : preFormulas d ax = some F) (xs : Array ℚ) (hN : 2 ≤ xs.size)
+    (V M : ℚ → ℚ) (delj : ℕ → ℚ) (nu dt : ℚ) (z o : Bool) (φ : ℕ → ℚ) :
+    let x : ℕ → ℚ := fun j => xs.getD j 0
+    let bcF := if z = true ∧ M (x 0) ≤ 0 then C.bcFirst nu (M (x 0)) (x 1 - x 0) else 0
+    let bcL := if o = true ∧ M (x (xs.size - 1)) ≥ 0 then C.bcLast nu (M (x (xs.size - 1))) (x (xs.size - 2 + 1) - x (xs.size - 2)) else 0
+    thomas ((preCoef F xs V M delj bcF bcL).rows xs.size dt φ) = (mkLine xs V M delj nu z o dt).step φ :=
+  preCoef_step_eq F (preFormulas_ok d ax F hF) xs hN V M delj nu dt z o φ
+
 /-- …the Python boundary-term formulas and guards, and the Python V and M functions, are the C ones -/
 theorem C02_precalc_pieces (nu Mf Ml dx0 dxl x y z' m1 m2 g h β : ℚ) :
     Py.pre1D_bcFirst nu Mf Ml dx0 dxl = C.bcFirst nu Mf dx0 ∧ Py.pre1D_bcLast nu Mf Ml dx0 dxl = C.bcLast nu Ml dxl ∧
